@@ -25,6 +25,7 @@ ASSUMPTIONS = [
 ]
 ANCHOR_FILES = ("src/pydrobert/speech/post.py",)
 EXHAUSTIVE_PARTS = []
+SUITE_TESTS = ['tests/test_post.py', 'tests/test_command_line.py']  # the repository's own tests as an extra monitored workload (thorough tier)
 LEVEL_TEXT = (
     "Every Deltas.apply / Stack.apply call made by a seeded generator of N-D shapes, axes and modes is compared element-wise with an "
     "independent loop-level reference; thousands (quick) to ~1e5 (thorough) distinct parameter tuples. Sampled exploration of a combinatorial space."
@@ -326,6 +327,10 @@ def plan(tier, seed):
 
 
 def run_shard(spec, rec):
+    if "suite" in spec:
+        from .. import suite
+
+        return suite.run(__name__.rsplit(".", 1)[-1], spec, rec)
     mon = Mon(rec)
     mon.attach()
     for case in spec["cases"]:
